@@ -586,4 +586,35 @@ theorem timeWindowOK_iff (c : TCfg) (tr : Trace) : TimeWindowOK c tr ↔ traceVi
       have := tvf_none_steps c _ _ [] h k m o hk
       simpa using this
 
+/-- what `stepViolation … (some b) = none` says -/
+theorem sv_some_inv (c : TCfg) (t0 : Int) (tr : Trace) (m : Msg) (b : Batch)
+    (h : stepViolation c t0 tr m (some b) = none) :
+    ¬ m.t < due c t0 tr ∧ b.tmax = (if c.every = 0 then m.t else due c t0 tr) ∧
+    b.pts = specContent c b.tmax (received (tr.map (·.1) ++ [m])) := by
+  unfold stepViolation at h
+  simp only at h
+  by_cases h1 : m.t < due c t0 tr
+  · simp [h1] at h
+  · simp only [h1, if_false] at h
+    by_cases h2 : b.tmax = if c.every = 0 then m.t else due c t0 tr
+    · simp only [h2, ne_eq, not_true_eq_false, if_false] at h
+      by_cases h3 : b.pts = specContent c (if c.every = 0 then m.t else due c t0 tr) (received (tr.map (·.1) ++ [m]))
+      · exact ⟨h1, h2, by rw [h2]; exact h3⟩
+      · simp [h3] at h
+    · simp [h2] at h
+
+theorem sv_none_inv (c : TCfg) (t0 : Int) (tr : Trace) (m : Msg)
+    (h : stepViolation c t0 tr m none = none) : m.t < due c t0 tr := by
+  unfold stepViolation at h
+  simp only at h
+  by_cases h1 : m.t < due c t0 tr
+  · exact h1
+  · simp [h1] at h
+
+theorem zip_run_head (c : TCfg) (m : Msg) (ms : List Msg) :
+    ((m :: ms).zip (runTime c (m :: ms)))[0]? = some (m, ((TW.init c m.t).step m).2) := by
+  show ((m :: ms).zip (TW.runFrom Buf.insert (TW.init c m.t) (m :: ms)))[0]? = _
+  simp only [TW.runFrom, List.zip_cons_cons, List.getElem?_cons_zero]
+  rfl
+
 end Kap.C03
